@@ -416,12 +416,62 @@ class Interp:
             if name in cf.env:
                 return cf.env[name]
             clo = cf.closure
+        # a local of the enclosing function that no path has bound yet: Python raises UnboundLocalError
+        owner = fr
+        while owner is not None and owner.func is None and owner.closure is not None:
+            owner = self.state.frames[owner.closure]
+        fnode = getattr(getattr(owner, "func", None), "node", None)
+        if fnode is not None and name in self._locals_of(fnode):
+            raise RaiseSig(ExcV("UnboundLocalError", ("name", name)), node)
         tgt = self.prog.resolve_name(fr.module, name)
         if tgt is not None:
             return self.global_value(tgt, fr.module, name)
         if name in ("True", "False", "None"):
             return Const({"True": True, "False": False, "None": None}[name])
+        import builtins as _b
+        if not hasattr(_b, name) and not name.startswith("$") and not (fnode is not None and name in self.__dict__.get("_imported_cache", {}).get(id(fnode), ())):
+            raise RaiseSig(ExcV("NameError", ("name", name)), node)
         return ExtV("builtins." + name)
+
+    def _locals_of(self, fnode):
+        """Names that are local to a function: its parameters and everything it binds (assignment, for/with/except
+        targets, imports, nested definitions), minus what it declares global/nonlocal."""
+        key = id(fnode)
+        cache = self.__dict__.setdefault("_locals_cache", {})
+        if key in cache:
+            return cache[key]
+        names, outer, imported = set(), set(), set()
+        a = fnode.args
+        for x in a.posonlyargs + a.args + a.kwonlyargs + ([a.vararg] if a.vararg else []) + ([a.kwarg] if a.kwarg else []):
+            names.add(x.arg)
+
+        def walk(n):
+            for ch in ast.iter_child_nodes(n):
+                if isinstance(ch, (ast.FunctionDef, ast.AsyncFunctionDef, ast.ClassDef)):
+                    names.add(ch.name)
+                    continue
+                if isinstance(ch, ast.Lambda):
+                    continue
+                if isinstance(ch, (ast.ListComp, ast.SetComp, ast.DictComp, ast.GeneratorExp)):
+                    # comprehension targets live in their own scope; the first iterable is evaluated outside
+                    walk(ch.generators[0].iter)
+                    continue
+                if isinstance(ch, ast.Name) and isinstance(ch.ctx, (ast.Store, ast.Del)):
+                    names.add(ch.id)
+                elif isinstance(ch, (ast.Global, ast.Nonlocal)):
+                    outer.update(ch.names)
+                elif isinstance(ch, (ast.Import, ast.ImportFrom)):
+                    for al in ch.names:
+                        imported.add((al.asname or al.name).split(".")[0])
+                elif isinstance(ch, ast.ExceptHandler) and ch.name:
+                    names.add(ch.name)
+                walk(ch)
+
+        walk(fnode)
+        # (names bound by a function-level import are resolved like module-level ones by the engine)
+        cache[key] = frozenset(names - outer - imported)
+        self.__dict__.setdefault("_imported_cache", {})[key] = frozenset(imported)
+        return cache[key]
 
     def global_value(self, dotted: str, module: str, name: str):
         if dotted in self.prog.functions:
